@@ -222,9 +222,70 @@ func genC01ViStructured(g *Gen) *wire.Scenario {
 	return sc
 }
 
+// genC01MultiPrompt: several Readline calls on one shell, each ended by another way of accepting or
+// leaving the line (the state a call leaves behind is input to the next one).
+func genC01MultiPrompt(g *Gen) *wire.Scenario {
+	mode := Pick(g, []string{"emacs", "emacs", "vi"})
+	sc := &wire.Scenario{Prop: "C01", Family: "edit-multi-prompt", Env: g.swarmEnv(mode)}
+	if len(sc.Env.History) == 0 {
+		sc.Env.History = []wire.HistSrc{{Kind: "memory", Name: "h0", Entries: []string{"one", "two words", "three"}}}
+	}
+	if g.P(40) {
+		sc.Env.Inputrc = append(sc.Env.Inputrc, "set revert-all-at-newline on")
+	}
+	km := "emacs"
+	if mode == "vi" {
+		km = "vi-insert"
+	}
+	walks := []string{"previous-history", "previous-history", "next-history", "beginning-of-history", "end-of-history", "history-search-backward"}
+	ends := []string{"accept-line", "operate-and-get-next", "accept-and-hold", "accept-and-infer-next-history", "abort-key", "accept-line"}
+	for p := 0; p < g.Range(2, 4); p++ {
+		for i := 0; i < g.N(4); i++ {
+			sc.Script = append(sc.Script, tok(string(Pick(g, []rune("abc d"))), "self-insert"))
+		}
+		for i := 0; i < g.N(4); i++ {
+			cmd := Pick(g, walks)
+			if seq := g.Cat.ShortSeqFor(km, cmd); seq != "" {
+				sc.Script = append(sc.Script, tok(seq, cmd))
+			}
+		}
+		if g.P(40) {
+			sc.Script = append(sc.Script, g.EditScript(ScriptOpts{Mode: mode, N: g.Range(1, 4), NoAccept: true})...)
+		}
+		end := Pick(g, ends)
+		switch end {
+		case "abort-key":
+			sc.Script = append(sc.Script, tok("\x03", "prompt-end"))
+		case "accept-line":
+			sc.Script = append(sc.Script, tok("\r", "prompt-end"))
+		default:
+			if seq := g.Cat.ShortSeqFor(km, end); seq != "" {
+				sc.Script = append(sc.Script, tok(seq, "prompt-end"))
+			} else {
+				sc.Script = append(sc.Script, tok("\r", "prompt-end"))
+			}
+		}
+	}
+	// what the next prompt starts with
+	for i := 0; i < g.N(4); i++ {
+		cmd := Pick(g, append(walks, "undo", "next-history", "down-line-or-history"))
+		if seq := g.Cat.ShortSeqFor(km, cmd); seq != "" {
+			sc.Script = append(sc.Script, tok(seq, cmd))
+		}
+	}
+	sc.Plan = wire.Plan{Policy: "seeded", Class: Pick(g, []string{"S0", "S1"}), Seed: g.Seed()}
+	if sc.Plan.Class == "S0" {
+		sc.Plan.Policy = "canonical"
+	}
+	return sc
+}
+
 func genC01(g *Gen, tier string, idx int) *wire.Scenario {
 	if idx%8 == 7 {
 		return genC01ViStructured(g)
+	}
+	if idx%8 == 6 {
+		return genC01MultiPrompt(g)
 	}
 	mode := "emacs"
 	if g.P(55) {
@@ -259,7 +320,21 @@ func genC01(g *Gen, tier string, idx int) *wire.Scenario {
 
 func execC01(x *Ctx, sc *wire.Scenario) *wire.Result {
 	res := okResult(sc)
-	out := runSession(x, sc, sc.Plan, sim.Hooks{}, false)
+	hooks := sim.Hooks{}
+	if sc.Family == "edit-multi-prompt" {
+		calls := 1
+		for _, t := range sc.Script {
+			if t.Cmd == "prompt-end" {
+				calls++
+			}
+		}
+		hooks.Body = func(s *sim.Session, sh *readlineShell) {
+			for i := 0; i < calls; i++ {
+				s.Readline(sh)
+			}
+		}
+	}
+	out := runSession(x, sc, sc.Plan, hooks, false)
 	absorb(res, out)
 	res.Nontrivial = out.Steps > 6
 	if crashOracle(res, out, "C01") {
